@@ -706,3 +706,21 @@ Proof.
 Qed.
 
 End Proofs.
+
+(** non-vacuity: keys = naturals modulo 7 with a hash that leaves [0,n) for small n (bucket 0 by the
+    clamp); the hypotheses hold, the history regrows twice, deletes, copies, and the lookups agree *)
+Example table_example :
+  let eqf := fun a b : nat => (a mod 7 =? b mod 7)%nat in
+  let hashf := fun (a n : nat) => (a mod 7 + 20)%nat in
+  let ops := [OSet 1%nat 10; OSet 2%nat 20; OSet 8%nat 11; OSet 3%nat 30; OSet 4%nat 40; ODel 2%nat; OCopy; OSet 5%nat 50; OSet 12%nat 51] in
+  (forall a b n, eqf a b = true -> hashf a n = hashf b n) /\
+  length (buckets (run_table hashf eqf ops)) = 46%nat /\
+  tsize (run_table hashf eqf ops) = 4 /\
+  map (fun k => tref hashf eqf (run_table hashf eqf ops) k) [1; 2; 3; 4; 5; 15]%nat =
+  map (fun k => mref eqf (run_map eqf ops) k) [1; 2; 3; 4; 5; 15]%nat /\
+  tref hashf eqf (run_table hashf eqf ops) 15%nat = Some (1%nat, 11).
+Proof.
+  cbv zeta. split.
+  - intros a b n H. apply Nat.eqb_eq in H. rewrite H. reflexivity.
+  - vm_compute. repeat split; reflexivity.
+Qed.
